@@ -36,8 +36,8 @@ static std::string gen_spec(Rng &r, int maxlen, int maxsize, bool allow_corpus, 
   int c = (int)r.below(10);
   if (allow_corpus && c < 3) return strf("corpus:%d", (int)r.below(100000));
   if (allow_float_fixed && c == 3) {
-    static const char *fx[] = {"addw", "subb", "mulll", "addf", "accl", "copyb", "addq"};
-    return strf("fixed:%s", fx[r.below(maxsize >= 8 ? 7 : 6)]);
+    static const char *fx[] = {"addw", "subb", "mulll", "addf", "accl", "copyb", "regpressure", "addq"};
+    return strf("fixed:%s", fx[r.below(maxsize >= 8 ? 8 : 7)]);
   }
   int len = 1 + (int)r.below(maxlen);
   unsigned fl = 0;
